@@ -336,6 +336,33 @@ def run(tier: str) -> int:
              "timeouts": 0, "model_runs": 0, "model_losing": 0}
     samples = []
     real_lost = False
+    # ---- a long backlog: nothing is dropped however far the publishers get ahead of the consumers --------------------------
+    import threading
+    for n_msgs, n_pub in ((3000, 1), (40000, 3), (150000, 2)):
+        t = M.InMemorySemantivaTransport()
+        def burst(i, t=t, n_msgs=n_msgs):
+            for k in range(n_msgs):
+                t.publish("backlog", (i, k), None)
+        ths = [threading.Thread(target=burst, args=(i,)) for i in range(n_pub)]
+        for th in ths:
+            th.start()
+        for th in ths:
+            th.join()
+        got = [m.data for m in t.subscribe("backlog")]
+        stats["backlog_messages"] = stats.get("backlog_messages", 0) + len(got)
+        per_pub = {}
+        ordered_ok = True
+        for (i, k) in got:
+            ordered_ok = ordered_ok and per_pub.get(i, -1) < k
+            per_pub[i] = k
+        if len(got) != n_msgs * n_pub or len(set(got)) != len(got):
+            rep.add_violation("message-lost:long-backlog", f"{n_pub} publisher(s) put {n_msgs * n_pub} messages on one channel before any consumer ran; "
+                              f"{len(got)} were delivered ({len(set(got))} distinct)",
+                              {"published": n_msgs * n_pub, "delivered": len(got), "first_delivered": [list(x) for x in got[:3]], "publishers": n_pub})
+        elif not ordered_ok:
+            rep.add_violation("out-of-order:long-backlog", "a publisher's messages are not received in publication order after a long backlog",
+                              {"published": n_msgs * n_pub, "publishers": n_pub})
+        del t, got
     for name, limit in per.items():
         sc = SCENARIOS[name]
         n = 0
